@@ -259,6 +259,13 @@ inductive Init (α : Type) where
   | scalar (a : α)
   | series (s : Ser α)
 
+/-- The variant broadcast rule of `Series.set_data` (`has_variants.iter_variants` = `exhaust_then_last`): receiving
+variant `j` takes the `j`-th supplied variant and, once the supplied ones are exhausted, the LAST supplied one
+(`initial` with fewer variants than the change series; a list of numbers; a single number or series). Nothing
+supplied: nothing to take. -/
+def pickVariant {β : Type} (supplied : List β) (j : Nat) : Option β :=
+  supplied[min j (supplied.length - 1)]?
+
 def Init.get : Init α → Int → Option α
   | .scalar a, _ => some a
   | .series s, t => s.get t
